@@ -1683,9 +1683,9 @@ def gen_usage(ctx):
         targets = ["t%d" % i for i in range(rng.choice([1, 2, 3, 4]))]
         corpora = []
         n = 0
-        for c in range(rng.choice([1, 1, 2, 3])):
+        for c in range(rng.choice([1, 2, 2, 3, 3, 4])):
             docs = []
-            for _d in range(rng.choice([1, 2, 2, 3])):
+            for _d in range(rng.choice([1, 1, 2, 3])):
                 n += 1
                 docs.append({"id": n, "target": rng.choice(targets), "lines": rng.randrange(1, 30), "archive": rng.choice([None, "bz2", "gz"]),
                              "declare": rng.random() < 0.7, "present": rng.random() < 0.93})
@@ -1734,7 +1734,35 @@ def gen_usage(ctx):
             challenges.append({"name": "ch1", "schedule": schedule()})
         selected = rng.randrange(len(challenges))
         yield {"streams_mode": streams_mode, "targets": targets, "corpora": corpora, "operations": named, "challenges": challenges, "selected": selected,
-               "two_roots": rng.random() < 0.2}
+               "two_roots": rng.random() < 0.2,
+               # how the (func, params) pairs of on_prepare_track are consumed: executed while iterating, or collected first by the
+               # real TrackPreparationActor._seed_tasks and then handed out (popped / in another order, as pickled DoTask messages)
+               "consume": rng.choice(["iterate", "seed-pop", "seed-pop-pickle", "seed-shuffle-pickle", "seed-pop-pickle"]),
+               "order_seed": rng.randrange(10 ** 6)}
+
+
+def consume_prepare_tasks(processor, t, data_root_dir, cfg, mode, order_seed):
+    """drives on_prepare_track the way its consumers do"""
+    if mode == "iterate":
+        for fn, params in processor.on_prepare_track(t, data_root_dir):
+            fn(**params)
+        return
+    import pickle
+
+    from esrally.driver import driver
+
+    seeder = object.__new__(driver.TrackPreparationActor)  # the real class: _seed_tasks and whatever helpers it uses
+    seeder.track, seeder.data_root_dir, seeder.cfg, seeder.tasks = t, data_root_dir, cfg, []
+    driver.TrackPreparationActor._seed_tasks(seeder, processor)  # collects ALL tasks first
+    tasks = seeder.tasks
+    if "shuffle" in mode:
+        random.Random(order_seed).shuffle(tasks)
+    while tasks:
+        task = tasks.pop()  # receiveMsg_ReadyForWork
+        msg = driver.DoTask(task, cfg)
+        if "pickle" in mode:
+            msg = pickle.loads(pickle.dumps(msg))  # the actor system delivers a copy
+        msg.task.func(**msg.task.params)  # TaskExecutionActor.receiveMsg_DoTask
 
 
 def usage_doc_bytes(ds):
@@ -1840,8 +1868,7 @@ def run_usage(ctx, case):
                 dtp = loader.DefaultTrackPreparator()
                 dtp.cfg, dtp.track = cfg, t
                 dtp.downloader, dtp.decompressor = loader.Downloader(offline=True, test_mode=False), loader.Decompressor()
-                for fn, params in dtp.on_prepare_track(t, cache):
-                    fn(**params)
+                consume_prepare_tasks(dtp, t, cache, cfg, case.get("consume", "iterate"), case.get("order_seed", 0))
                 res = "ok"
                 rt = copy.deepcopy(t)
                 loader.set_absolute_data_path(cfg, rt)
@@ -1897,9 +1924,11 @@ def run_usage(ctx, case):
             ctx.fail("non-explicit-error", "track preparation failed with something that is not an explicit error", "explicit error class", res)
         kinds = sorted(set(("named" if isinstance(t_["operation"], str) else "inline-named" if "name" in t_["operation"] else "inline-unnamed")
                            for t_ in leaf_tasks(case["challenges"][case["selected"]]["schedule"])))
-        ctx.sig([m.get("tags"), res.split(":")[0], kinds, len(mtasks), len(mdocs), None if expected is None else len(expected), case["streams_mode"]],
-                nontrivial=len(mtasks) > 1)
+        used_corpora_n = len(set(content[i][0] for i in expected)) if expected else 0
+        ctx.sig([m.get("tags"), res.split(":")[0], kinds, len(mtasks), len(mdocs), None if expected is None else len(expected), case["streams_mode"],
+                 case.get("consume", "iterate"), min(used_corpora_n, 3)], nontrivial=len(mtasks) > 1)
         ctx.count("usage:res:" + res.split(":")[0])
+        ctx.count("usage:consume:%s:used-corpora-%s" % (case.get("consume", "iterate"), "0" if not used_corpora_n else "1" if used_corpora_n == 1 else ">=2"))
     finally:
         shutil.rmtree(root, ignore_errors=True)
 
